@@ -273,41 +273,212 @@ Section Kinds.
     constructor; [|apply IH]. cbn [fst snd]. apply iv_line_lexok; exact Hv.
   Qed.
 
-  (* ---- fields (arguments without descriptions) ---------------------------- *)
+  (* ---- arguments, inline or one per line with descriptions ------------------ *)
+  Definition d_arg (depth : nat) (a : sivalue) : Prop :=
+    plain_siv o E0 (clear_siv a) /\ desc_okd o (S depth) (siv_desc a).
+
+  Definition arg_line (depth : nat) (first : bool) (a : sivalue) : str :=
+    print_description o (siv_desc a) (S depth) first ++ (po_indent o ++ ind o depth) ++ iv_text o E0 a.
+
+  Lemma arg_line_lexok depth first a : d_arg depth a ->
+    arg_line depth first a <> [] /\ LexOK (arg_line depth first a) (fun ts => D_input_value true ts (iv_d a)).
+  Proof.
+    intros [Hp Hd]. destruct (iv_text_facts o E0 _ Hp) as [T1 (T2 & _)].
+    change (iv_text o E0 (clear_siv a)) with (iv_text o E0 a) in *.
+    pose proof (wf_iv_of o E0 _ Hp) as [Hwf Hnd]. pose proof (strip_iv_of o E0 _ Hp) as Hs.
+    destruct (ivdef_lexp cf Hws (iv_of E0 (clear_siv a)) Hwf Hnd) as [_ HL].
+    specialize (HL [] eq_refl). rewrite reindent_nil in HL. unfold cf in HL.
+    rewrite (pr_input_value_plain o E0 _ Hp), Hs in HL.
+    change (iv_text o E0 (clear_siv a)) with (iv_text o E0 a) in HL.
+    split.
+    - unfold arg_line. intros H. apply app_eq_nil in H. destruct H as [_ H]. apply app_eq_nil in H. tauto.
+    - unfold arg_line, iv_d.
+      pose proof (member_line_lexok o Hws (S depth) (siv_desc a) first (po_indent o ++ ind o depth) (iv_text o E0 a)
+                    (fun ts => D_input_value true ts (iv_of E0 (clear_siv a)))
+                    (fun sv ts => D_input_value true ts
+                       (IVDef (Some sv) (mk_name (siv_name a)) (ty_of_tref (siv_type a)) (dflt_of E0 a)
+                              (custom_dirs (siv_dirs a)) None))
+                    Hd (all_ws_app _ _ Hws (ind_ws o Hws depth)) HL) as H.
+      destruct (siv_desc a) as [[|c r]|]; apply H; intros; apply add_desc_input_value; assumption.
+  Qed.
+
+  Fixpoint arg_items (depth : nat) (first : bool) (args : list sivalue) : list (str * sivalue) :=
+    match args with
+    | [] => []
+    | a :: r => (arg_line depth first a, a) :: arg_items depth false r
+    end.
+
+  Lemma arg_items_ok depth first args : Forall (d_arg depth) args ->
+    Forall (fun it => fst it <> [] /\ LexOK (fst it) (fun ts => D_input_value true ts (iv_d (snd it)))) (arg_items depth first args).
+  Proof.
+    intros H. revert first. induction H as [|v r Hv _ IH]; intros first; [constructor|]. cbn [arg_items].
+    constructor; [|apply IH]. cbn [fst snd]. apply arg_line_lexok; exact Hv.
+  Qed.
+
+  Lemma arg_items_map depth first args : map (fun it => iv_d (snd it)) (arg_items depth first args) = map iv_d args.
+  Proof. revert first. induction args as [|f r IH]; intros first; [reflexivity|]. cbn [arg_items map snd]. rewrite IH. reflexivity. Qed.
+
+  Definition hasdesc (a : sivalue) : bool := match siv_desc a with Some (_ :: _) => true | _ => false end.
+
+  Definition args_block (depth : nat) (args : list sivalue) : str :=
+    ind o depth ++ lit "(" ++ nl ++ join nl (map fst (arg_items depth true args)) ++ (nl ++ ind o depth) ++ lit ")".
+
+  (* print_arguments: what it writes *)
+  Definition gargs (depth : nat) (args : list sivalue) : str :=
+    if existsb hasdesc args then args_block depth args else args_text o E0 args.
+
+  Lemma ws_head_ok (w : str) rest : all_ws w -> vrest_ok rest -> vrest_ok (w ++ rest).
+  Proof.
+    intros Hw Hr. destruct w as [|c w']; [exact Hr|]. cbn [app vrest_ok].
+    apply all_ws_cons in Hw. destruct Hw as [Hc _]. unfold PrinterSpec.is_ws in Hc.
+    apply Bool.orb_true_iff in Hc. destruct Hc as [Hc|Hc]; apply N.eqb_eq in Hc; subst c; repeat split; discriminate.
+  Qed.
+
+  Lemma nodesc_plain depth args :
+    Forall (d_arg depth) args -> existsb hasdesc args = false ->
+    Forall (plain_siv o E0) args /\ map iv_d args = map (iv_of E0) args.
+  Proof.
+    induction 1 as [|a r [Hp Hd] _ IH]; intros He; [split; [constructor|reflexivity]|].
+    cbn [existsb] in He. apply Bool.orb_false_iff in He. destruct He as [Ha Hr]. destruct (IH Hr) as [I1 I2].
+    assert (Hnone : siv_desc a = None).
+    { unfold hasdesc in Ha. destruct (siv_desc a) as [[|c s0]|]; [|discriminate|reflexivity].
+      destruct Hd as [Hne _]. congruence. }
+    assert (Hc : clear_siv a = a) by (destruct a; cbn in *; subst; reflexivity).
+    rewrite Hc in Hp. split; [constructor; assumption|]. cbn [map]. rewrite I2. f_equal.
+    unfold iv_d, iv_of. rewrite Hnone. reflexivity.
+  Qed.
+
+  Lemma gargs_lexok depth args : Forall (d_arg depth) args ->
+    LexOK (gargs depth args) (fun ts => D_args_def true ts (map iv_d args))
+    /\ (forall rest, vrest_ok rest -> vrest_ok (gargs depth args ++ rest)).
+  Proof.
+    intros H. unfold gargs. destruct (existsb hasdesc args) eqn:He.
+    - assert (Hne : args <> []) by (destruct args; [discriminate|discriminate]).
+      split.
+      + unfold args_block, D_args_def. apply lexok_lead; [apply ws_ignorable; apply ind_ws; exact Hws|].
+        change (lit "(") with [40%N]. change (lit ")") with [41%N].
+        rewrite <- (arg_items_map depth true args).
+        apply (lines_block_lexok 40%N 41%N KParenO KParenC nl (nl ++ ind o depth)
+                 (fun a ts => D_input_value true ts (iv_d a)) (D_input_value true) iv_d (arg_items depth true args));
+          try reflexivity; try discriminate.
+        * repeat constructor.
+        * constructor; [reflexivity|apply ws_ignorable; apply ind_ws; exact Hws].
+        * destruct args; [congruence|discriminate].
+        * intros x ts Hx; exact Hx.
+        * apply arg_items_ok; exact H.
+      + intros rest Hr. unfold args_block. rewrite <- app_assoc. apply ws_head_ok; [apply ind_ws; exact Hws|].
+        apply vrest_sym. left. discriminate.
+    - destruct (nodesc_plain depth args H He) as [Hp Hm]. rewrite Hm. split.
+      + assert (Hwf : Forall wf_ivdef (map (iv_of E0) args)).
+        { apply Forall_forall. intros x Hx. apply in_map_iff in Hx. destruct Hx as (a & <- & Ha).
+          rewrite Forall_forall in Hp. apply (wf_iv_of o E0 a (Hp a Ha)). }
+        assert (Hnd : Forall (fun i => iv_desc i = None) (map (iv_of E0) args)).
+        { apply Forall_forall. intros x Hx. apply in_map_iff in Hx. destruct Hx as (a & <- & Ha). reflexivity. }
+        pose proof (argdefs_lexp cf Hws (map (iv_of E0) args) Hwf Hnd [] eq_refl) as HA.
+        rewrite reindent_nil in HA. unfold cf in HA. rewrite (pr_arg_defs_plain o E0 _ Hp) in HA.
+        rewrite map_map in HA. rewrite (map_ext_in _ (iv_of E0)) in HA; [exact HA|].
+        intros a Ha. rewrite Forall_forall in Hp. apply (strip_iv_of o E0 a (Hp a Ha)).
+      + intros rest Hr. pose proof (argdefs_head_ok cf [] (map (iv_of E0) args) rest Hr) as Hh.
+        rewrite reindent_nil in Hh. unfold cf in Hh. rewrite (pr_arg_defs_plain o E0 _ Hp) in Hh. exact Hh.
+  Qed.
+
+  (* ---- fields ------------------------------------------------------------ *)
   Definition clear_sf (f : sfield) : sfield :=
     SF (sf_name f) (sf_py f) (sf_args f) (sf_type f) None (sf_dep f) (sf_dirs f).
 
-  Definition d_sf (f : sfield) : Prop := plain_sf o E0 (clear_sf f) /\ desc_okd o 1 (sf_desc f).
+  Definition d_sf (f : sfield) : Prop :=
+    (dirs_ok o (sf_dirs f) /\ vname (sf_name f) /\ wf_tref (sf_type f))
+    /\ Forall (d_arg 1) (sf_args f) /\ desc_okd o 1 (sf_desc f).
 
   Definition fd_d (f : sfield) : field_def :=
-    FDef (strval_of (sf_desc f)) (mk_name (sf_name f)) (map (iv_of E0) (sf_args f)) (ty_of_tref (sf_type f))
+    FDef (strval_of (sf_desc f)) (mk_name (sf_name f)) (map iv_d (sf_args f)) (ty_of_tref (sf_type f))
          (fdirs f) None.
+
+  Lemma omap_args_d depth args : Forall (d_arg depth) args -> omap (ivdef_of E0) args = Ok (map iv_d args).
+  Proof.
+    induction 1 as [|a l Ha _ IH]; [reflexivity|]. cbn [omap map].
+    destruct Ha as [(Hd & _) _]. unfold dflt_ok in Hd. cbn [clear_siv siv_default siv_type] in Hd.
+    assert (Hiv : ivdef_of E0 a = Ok (iv_d a)).
+    { unfold ivdef_of, iv_d, dflt_of. destruct (siv_default a) as [v|]; [|reflexivity].
+      destruct Hd as (n & Hn & _). rewrite Hn. reflexivity. }
+    rewrite Hiv. cbn [obind]. rewrite IH. reflexivity.
+  Qed.
 
   Lemma fdef_of_d f : d_sf f -> fdef_of E0 f = Ok (fd_d f).
   Proof.
-    intros [(_ & _ & _ & _ & Ha) _]. cbn [clear_sf sf_args] in Ha. unfold fdef_of, fd_d, fdirs.
-    rewrite (omap_ivdefs o E0 _ Ha). reflexivity.
+    intros (_ & Ha & _). unfold fdef_of, fd_d, fdirs. rewrite (omap_args_d 1 _ Ha). reflexivity.
+  Qed.
+
+  (* the field without its description *)
+  Definition ftd (f : sfield) : str :=
+    sf_name f ++ gargs 1 (sf_args f) ++ lit ": " ++ print_tref (sf_type f) ++ dtext o (fdirs f).
+
+  Lemma ftd_lexok f : d_sf f ->
+    LexOK (ftd f) (fun ts => D_field_def true ts
+                     (FDef None (mk_name (sf_name f)) (map iv_d (sf_args f)) (ty_of_tref (sf_type f)) (fdirs f) None))
+    /\ ftd f <> [] /\ py_space (last (ftd f) 0%N) = false.
+  Proof.
+    intros ((Hdirs & Hn & Ht) & Ha & _).
+    destruct (gargs_lexok 1 _ Ha) as [HA HAv].
+    pose proof (good_fdirs o (sf_dep f) _ Hdirs) as Hg. fold (fdirs f) in Hg.
+    pose proof (good_dirs_wf _ Hg) as Hwfd. pose proof (good_dirs_strip _ Hg) as Hsd.
+    pose proof (wf_ty_of_tref _ Ht) as Hwt.
+    split; [|split].
+    - unfold ftd. rewrite print_tref_pr_type, <- (wrap_dirs o).
+      change (lit ": ") with ([58%N] ++ [32%N]). rewrite <- !app_assoc.
+      apply (lexok_weaken _ (fun ts => exists n xs, ts = n :: xs /\ tk n = KName /\ tval n = sf_name f /\
+                (exists ats colon tyts dts, xs = ats ++ colon :: tyts ++ dts
+                   /\ D_args_def true ats (map iv_d (sf_args f)) /\ tk colon = KColon
+                   /\ D_type true tyts (strip_ty (ty_of_tref (sf_type f)))
+                   /\ D_directives true true dts (map strip_dir (fdirs f))))).
+      + intros ts (n & xs & -> & Hk & Htv & ats & colon & tyts & dts & -> & HDa & Hc & HDt & HDd).
+        rewrite strip_ty_of_tref in HDt. rewrite Hsd in HDd.
+        pose proof (DFd true [] None n ats _ colon tyts _ dts _ (DDesc_none true) Hk HDa Hc HDt HDd) as D.
+        unfold name_node in D. rewrite Htv in D. exact D.
+      + apply name_then; [exact Hn| |].
+        * apply (lexok_app _ _ (fun ts => D_args_def true ts (map iv_d (sf_args f)))
+                   (fun ts => exists colon tyts dts, ts = colon :: tyts ++ dts /\ tk colon = KColon
+                      /\ D_type true tyts (strip_ty (ty_of_tref (sf_type f)))
+                      /\ D_directives true true dts (map strip_dir (fdirs f)))).
+          -- exact HA.
+          -- cbn [app].
+             apply (lexok_symbol_app 58%N KColon _ (fun ts => exists tyts dts, ts = tyts ++ dts
+                      /\ D_type true tyts (strip_ty (ty_of_tref (sf_type f)))
+                      /\ D_directives true true dts (map strip_dir (fdirs f))));
+               [reflexivity|discriminate| |].
+             ++ change (32%N :: ?x) with ([32%N] ++ x). apply lexok_lead; [repeat constructor|].
+                apply (lexok_app _ _ (fun ts => D_type true ts (strip_ty (ty_of_tref (sf_type f))))
+                         (fun ts => D_directives true true ts (map strip_dir (fdirs f)))).
+                ** apply type_lexok. exact Hwt.
+                ** pose proof (dirs_wrap_lexp cf Hws (fdirs f) Hwfd [] eq_refl) as HD. rewrite reindent_nil in HD. exact HD.
+                ** intros rest Hr. pose proof (dirs_wrap_head_ok cf [] (fdirs f) rest Hr) as HH. rewrite reindent_nil in HH. exact HH.
+                ** intros ts1 ts2 H1 H2. exists ts1, ts2. auto.
+             ++ intros tok ts Hk (tyts & dts & -> & H1 & H2). exists tok, tyts, dts. auto.
+          -- intros rest _. apply vrest_sym. left. discriminate.
+          -- intros ts1 ts2 H1 (colon & tyts & dts & -> & H2). exists ts1, colon, tyts, dts. tauto.
+        * intros rest Hr. rewrite <- app_assoc. apply HAv. apply vrest_sym. left. discriminate.
+    - unfold ftd. destruct (vname_nolf _ Hn) as (_ & _ & Hne). intros H. apply app_eq_nil in H. tauto.
+    - unfold ftd. destruct (print_tref_facts _ Ht) as [_ (T2 & _ & T4)].
+      destruct (dtext_facts o _ Hg) as [_ D3].
+      destruct (dtext o (fdirs f)) as [|c r] eqn:Hd.
+      + rewrite app_nil_r, !app_assoc, last_app_ne by exact T2. exact T4.
+      + rewrite !app_assoc, last_app_ne by discriminate. apply D3. discriminate.
   Qed.
 
   Definition f_line (first : bool) (f : sfield) : str :=
-    print_description o (sf_desc f) 1 first ++ po_indent o ++ ft o E0 f.
+    print_description o (sf_desc f) 1 first ++ po_indent o ++ ftd f.
 
   Lemma f_line_lexok first f : d_sf f ->
     f_line first f <> [] /\ LexOK (f_line first f) (fun ts => D_field_def true ts (fd_d f))
     /\ py_space (last (f_line first f) 0%N) = false.
   Proof.
-    intros [Hp Hd]. destruct (ft_facts o E0 _ Hp) as (F1 & F2 & F3 & F4).
-    change (ft o E0 (clear_sf f)) with (ft o E0 f) in *.
-    pose proof (wf_fd_of o E0 _ Hp) as [Hwf Hnd]. pose proof (strip_fd_of o E0 _ Hp) as Hs.
-    destruct (fdef_lexp cf Hws (fd_of E0 (clear_sf f)) Hwf Hnd) as [_ HL].
-    specialize (HL [] eq_refl). rewrite reindent_nil in HL. unfold cf in HL. rewrite F1, Hs in HL.
+    intros Hf. destruct (ftd_lexok f Hf) as (HL & F3 & F4). destruct Hf as (_ & _ & Hd).
     split; [|split].
     - unfold f_line. intros H. apply app_eq_nil in H. destruct H as [_ H]. apply app_eq_nil in H. tauto.
     - unfold f_line, fd_d.
-      pose proof (member_line_lexok o Hws 1 (sf_desc f) first (po_indent o) (ft o E0 f)
-                    (fun ts => D_field_def true ts (fd_of E0 (clear_sf f)))
+      pose proof (member_line_lexok o Hws 1 (sf_desc f) first (po_indent o) (ftd f) _
                     (fun sv ts => D_field_def true ts
-                       (FDef (Some sv) (mk_name (sf_name f)) (map (iv_of E0) (sf_args f)) (ty_of_tref (sf_type f))
+                       (FDef (Some sv) (mk_name (sf_name f)) (map iv_d (sf_args f)) (ty_of_tref (sf_type f))
                              (fdirs f) None))
                     Hd Hws HL) as H.
       destruct (sf_desc f) as [[|c r]|]; apply H; intros; apply add_desc_field; assumption.
@@ -522,17 +693,39 @@ Section MemberPrint.
   Lemma iv_items_first first fs : map fst (iv_items o E0 first fs) = first_map (iv_line o E0) first fs.
   Proof. revert first. induction fs as [|f r IH]; intros first; [reflexivity|]. cbn [iv_items first_map map fst]. rewrite IH. reflexivity. Qed.
 
+  Lemma arg_items_first depth first args :
+    map fst (arg_items o E0 depth first args) = first_map (arg_line o E0 depth) first args.
+  Proof. revert first. induction args as [|f r IH]; intros first; [reflexivity|]. cbn [arg_items first_map map fst]. rewrite IH. reflexivity. Qed.
+
+  Lemma print_arguments_d depth args :
+    Forall (d_arg o E0 depth) args -> print_arguments o E print_fuel args depth = Ok (gargs o E0 depth args).
+  Proof.
+    intros H. unfold gargs. destruct (existsb (hasdesc) args) eqn:He.
+    - assert (Hpd : po_descriptions o = true).
+      { apply existsb_exists in He. destruct He as (a & Ha & Hh). rewrite Forall_forall in H. destruct (H a Ha) as [_ Hd].
+        unfold hasdesc in Hh. destruct (siv_desc a) as [[|c r]|]; try discriminate. apply Hd. }
+      unfold print_arguments. destruct args as [|a0 r0] eqn:Ea; [discriminate|]. rewrite <- Ea in *.
+      change (existsb (fun a => match siv_desc a with Some (_ :: _) => true | _ => false end) args) with (existsb hasdesc args).
+      rewrite Hpd, He. cbn [andb].
+      rewrite (imap_first _ (arg_line o E0 depth)).
+      + cbn [obind]. unfold args_block. rewrite arg_items_first, <- !app_assoc. reflexivity.
+      + intros i a Ha. rewrite Forall_forall in H. destruct (H a Ha) as [Hp _].
+        pose proof (print_input_value_plain o E E0 Hext _ Hp) as Hpi.
+        change (print_input_value o E print_fuel (clear_siv a)) with (print_input_value o E print_fuel a) in Hpi.
+        rewrite Hpi. cbn [obind]. unfold arg_line. rewrite <- !app_assoc. reflexivity.
+    - destruct (nodesc_plain o E0 depth args H He) as [Hp _]. apply (print_arguments_plain o E E0 Hext); exact Hp.
+  Qed.
+
   Lemma print_fields_d fs :
     Forall (d_sf o E0) fs -> print_fields o E print_fuel fs = Ok (join nl (map fst (f_items o E0 true fs))).
   Proof.
     intros H. unfold print_fields. rewrite f_items_first.
     rewrite (imap_first _ (f_line o E0)); [reflexivity|].
-    intros i f Hf. rewrite Forall_forall in H. pose proof (H f Hf) as [Hp Hd].
-    pose proof Hp as (_ & Hn & _ & _ & Ha). cbn [clear_sf sf_args sf_dirs] in Hn, Ha.
-    rewrite (print_arguments_plain o E E0 Hext _ 1 Ha). cbn [obind].
+    intros i f Hf. rewrite Forall_forall in H. pose proof (H f Hf) as Hd. pose proof Hd as ((Hn & _) & Ha & _).
+    rewrite (print_arguments_d 1 _ Ha). cbn [obind].
     rewrite (print_directives_ok o _ Hn), <- (dtext_deprecated o), <- (dtext_app o). f_equal.
-    destruct (f_line_lexok o E0 Hws (Nat.eqb i 0) f (conj Hp Hd)) as (H1 & _ & H3).
-    change (print_description o (sf_desc f) 1 (Nat.eqb i 0) ++ po_indent o ++ sf_name f ++ args_text o E0 (sf_args f)
+    destruct (f_line_lexok o E0 Hws (Nat.eqb i 0) f Hd) as (H1 & _ & H3).
+    change (print_description o (sf_desc f) 1 (Nat.eqb i 0) ++ po_indent o ++ sf_name f ++ gargs o E0 1 (sf_args f)
             ++ lit ": " ++ print_tref (sf_type f) ++ dtext o (deprecated_dir (sf_dep f) ++ custom_dirs (sf_dirs f)))
       with (f_line o E0 (Nat.eqb i 0) f).
     exact (rstrip_id _ H1 H3).
@@ -621,16 +814,123 @@ Section FullTexts.
     split; [apply mtext_ne|]. split; [apply (mdef_lexok o E0 fv Hws); exact Hm|].
     intros (l & sels & l' & He). cbn [snd] in He. destruct t; discriminate.
   Qed.
+
+  (* ---- directive definitions with described arguments ---------------------- *)
+  Definition m_ddef (d : ddef) : Prop :=
+    vname (dd_name d) /\ Forall (d_arg o E0 0) (dd_args d) /\ dd_locs d <> []
+    /\ Forall (fun l => In l (map str_of_string directive_location_names)) (dd_locs d)
+    /\ desc_ok o (dd_desc d).
+
+  Definition mdcore (d : ddef) : str :=
+    lit "directive @" ++ dd_name d ++ gargs o E0 0 (dd_args d) ++ lit " on " ++ join (lit " | ") (dd_locs d).
+  Definition mdtext (d : ddef) : str := desc_text o (dd_desc d) ++ mdcore d.
+  Definition mdcore_def (d : ddef) : definition :=
+    DDirective None (mk_name (dd_name d)) (map (iv_d E0) (dd_args d)) (map mk_name (dd_locs d)) None.
+  Definition mddef (d : ddef) : definition := set_desc (strval_of (dd_desc d)) (mdcore_def d).
+
+  Lemma print_ddef_m d : m_ddef d -> print_directive_definition o E print_fuel d = Ok (mdtext d).
+  Proof.
+    intros (_ & Ha & _ & _ & Hd). unfold print_directive_definition, mdtext, mdcore.
+    rewrite (print_arguments_d o E E0 Hext 0 _ Ha). cbn [obind]. rewrite (print_description_top o _ Hd). reflexivity.
+  Qed.
+
+  Lemma def_of_ddef_m d : m_ddef d -> def_of_ddef E0 d = Ok (mddef d).
+  Proof.
+    intros (_ & Ha & _). unfold def_of_ddef, mddef, mdcore_def. rewrite (omap_args_d o E0 0 _ Ha). cbn [obind].
+    destruct (strval_of (dd_desc d)); reflexivity.
+  Qed.
+
+  Lemma loc_vname l : In l (map str_of_string directive_location_names) -> vname l.
+  Proof.
+    intros H. simpl in H.
+    repeat (destruct H as [<-|H]; [eexists _, _; split; [reflexivity|]; split; [reflexivity|repeat constructor]|]).
+    contradiction.
+  Qed.
+
+  Lemma mdcore_lexok fv d : m_ddef d ->
+    LexOK (mdcore d) (fun ts => D_definition true fv true ts (mdcore_def d)).
+  Proof.
+    intros (Hn & Hargs & Hlne & Hlocs & _). unfold mdcore, mdcore_def.
+    destruct (gargs_lexok o E0 Hws 0 _ Hargs) as [HA HAv].
+    assert (HL : LexOK (join (lit " | ") (dd_locs d))
+                   (fun ts => D_sep_list (D_directive_location true) KPipe ts (map mk_name (dd_locs d)))).
+    { change (lit " | ") with [32%N; 124%N; 32%N].
+      assert (Hj : join [32%N; 124%N; 32%N] (dd_locs d) = join_ne (map (fun x : str => x) (dd_locs d)) [32%N; 124%N; 32%N]).
+      { rewrite map_id. symmetry. apply join_ne_join. }
+      rewrite Hj.
+      apply (lex_sep_joined 124%N KPipe (fun x : str => x)
+               (fun x ts => exists t, ts = [t] /\ tk t = KName /\ tval t = x
+                                      /\ In x (map str_of_string directive_location_names))
+               (D_directive_location true) mk_name); try reflexivity; try discriminate; try assumption.
+      - intros x ts (t & -> & Hk & Ht & Hw).
+        pose proof (DDl true t Hk) as D. unfold name_node in D. rewrite Ht in D. apply D. exact Hw.
+      - apply Forall_forall. intros x Hx. rewrite Forall_forall in Hlocs.
+        apply name_lexok; [apply loc_vname; auto|]. intros t Hk Ht. exists t. auto. }
+    set (Q := fun ts => exists k a nt ats o' lts, ts = k :: a :: nt :: ats ++ o' :: lts
+                /\ is_word "directive" k /\ tk a = KAt /\ tk nt = KName /\ tval nt = dd_name d
+                /\ D_args_def true ats (map (iv_d E0) (dd_args d)) /\ is_word "on" o'
+                /\ D_sep_list (D_directive_location true) KPipe lts (map mk_name (dd_locs d))).
+    apply (lexok_weaken _ Q).
+    - intros ts (k & a & nt & ats & o' & lts & -> & Hk & Ha & Hkn & Ht & HDa & Ho & HDl).
+      pose proof (DT_directive true [] None k a nt ats _ o' [] lts _ (DDesc_none true) Hk Ha Hkn HDa Ho (DLead_none KPipe) HDl) as D.
+      unfold name_node in D. rewrite Ht in D. apply DD_tsd; [reflexivity|exact D].
+    - change (lit "directive @") with (str_of_string "directive" ++ [32%N] ++ [64%N]).
+      change (lit " on ") with ([32%N] ++ lit "on" ++ [32%N]).
+      rewrite <- !app_assoc.
+      apply (lexok_weaken _ (fun ts => exists k xs, ts = k :: xs /\ tk k = KName /\ tval k = str_of_string "directive" /\
+                (exists a nt ats o' lts, xs = a :: nt :: ats ++ o' :: lts /\ tk a = KAt /\ tk nt = KName
+                   /\ tval nt = dd_name d /\ D_args_def true ats (map (iv_d E0) (dd_args d)) /\ is_word "on" o'
+                   /\ D_sep_list (D_directive_location true) KPipe lts (map mk_name (dd_locs d))))).
+      + intros ts (k & xs & -> & Hk & Htk & a & nt & ats & o' & lts & -> & H1 & H2 & H3 & H4 & H5 & H6).
+        unfold Q. exists k, a, nt, ats, o', lts. repeat split; auto; apply H5.
+      + apply name_then; [exists 100%N, (lit "irective"); repeat split; repeat constructor| |].
+        * apply lexok_lead; [repeat constructor|]. cbn [app].
+          apply (lexok_symbol_app 64%N KAt _ (fun ts => exists nt ats o' lts, ts = nt :: ats ++ o' :: lts
+                    /\ tk nt = KName /\ tval nt = dd_name d /\ D_args_def true ats (map (iv_d E0) (dd_args d))
+                    /\ is_word "on" o'
+                    /\ D_sep_list (D_directive_location true) KPipe lts (map mk_name (dd_locs d))));
+            [reflexivity|discriminate| |].
+          -- apply (lexok_weaken _ (fun ts => exists nt xs, ts = nt :: xs /\ tk nt = KName /\ tval nt = dd_name d /\
+                       (exists ats o' lts, xs = ats ++ o' :: lts /\ D_args_def true ats (map (iv_d E0) (dd_args d))
+                          /\ is_word "on" o'
+                          /\ D_sep_list (D_directive_location true) KPipe lts (map mk_name (dd_locs d))))).
+             ++ intros ts (nt & xs & -> & Hk & Ht & ats & o' & lts & -> & H). exists nt, ats, o', lts. tauto.
+             ++ apply name_then; [exact Hn| |].
+                ** apply (lexok_app _ _ (fun ts => D_args_def true ts (map (iv_d E0) (dd_args d)))
+                           (fun ts => exists o' lts, ts = o' :: lts /\ is_word "on" o'
+                              /\ D_sep_list (D_directive_location true) KPipe lts (map mk_name (dd_locs d)))).
+                   --- exact HA.
+                   --- change (32%N :: lit "on" ++ 32%N :: ?x) with ([32%N] ++ lit "on" ++ [32%N] ++ x).
+                       apply lexok_lead; [repeat constructor|].
+                       apply (lexok_weaken _ (fun ts => exists o' xs, ts = o' :: xs /\ tk o' = KName /\ tval o' = lit "on"
+                                /\ D_sep_list (D_directive_location true) KPipe xs (map mk_name (dd_locs d)))).
+                       +++ intros ts (o' & xs & -> & Hk & Ht & H). exists o', xs. unfold is_word. auto.
+                       +++ apply name_then; [apply valid_name_on| |].
+                           *** apply lexok_lead; [repeat constructor|exact HL].
+                           *** intros rest _. apply vrest_sym. auto.
+                   --- intros rest _. apply vrest_sym. auto.
+                   --- intros ts1 ts2 H1 (o' & lts & -> & H2). exists ts1, o', lts. tauto.
+                ** intros rest Hr. rewrite <- app_assoc. apply HAv. apply vrest_sym. auto.
+          -- intros tok ts Hk (nt & ats & o' & lts & -> & H). exists tok, nt, ats, o', lts. tauto.
+        * intros rest _. apply vrest_sym. auto.
+  Qed.
+
+  Lemma m_ddef_item fv d : m_ddef d -> item_ok fv (mdtext d, mddef d).
+  Proof.
+    intros Hm. pose proof Hm as (_ & _ & _ & _ & Hd). unfold mdtext, mddef.
+    apply described_item; [exact Hd|exact I|]. split; [discriminate|]. split; [apply mdcore_lexok; exact Hm|].
+    intros (l & sels & l' & He). discriminate.
+  Qed.
 End FullTexts.
 
 Definition full_schema (o : popts) (sc : schema) : Prop :=
   let E0 := env_of_schema [] sc in
-  Forall (full_tdef o E0) (s_types sc) /\ Forall (dt_ddef o E0) (s_ddefs sc) /\ plain_roots o sc /\ s_types sc <> [].
+  Forall (full_tdef o E0) (s_types sc) /\ Forall (m_ddef o E0) (s_ddefs sc) /\ plain_roots o sc /\ s_types sc <> [].
 
 Definition full_items (o : popts) (sc : schema) : list (str * definition) :=
   let E0 := env_of_schema [] sc in
   (if schema_def_needed sc then [(sdef_text o sc, sdef_of sc)] else [])
-  ++ map (fun d => (dtext_d o E0 d, ddef_d E0 d)) (sort_by dd_name (s_ddefs sc))
+  ++ map (fun d => (mdtext o E0 d, mddef E0 d)) (sort_by dd_name (s_ddefs sc))
   ++ map (fun t => (ftext o E0 t, fdef E0 t)) (sort_by tdef_name (s_types sc)).
 
 Definition doc_f (o : popts) (sc : schema) : document := Doc (map snd (full_items o sc)) None.
@@ -646,11 +946,11 @@ Proof.
   intros (Ht & Hd & Hr & Hne). set (E0 := env_of_schema [] sc) in *.
   set (st := sort_by tdef_name (s_types sc)). set (sd := sort_by dd_name (s_ddefs sc)).
   assert (Hst : Forall (full_tdef o E0) st) by (apply sort_by_Forall; exact Ht).
-  assert (Hsd : Forall (dt_ddef o E0) sd) by (apply sort_by_Forall; exact Hd).
+  assert (Hsd : Forall (m_ddef o E0) sd) by (apply sort_by_Forall; exact Hd).
   unfold ast_of_schema, doc_f, full_items. fold E0 sd st.
-  assert (H1 : omap (def_of_ddef E0) sd = Ok (map (ddef_d E0) sd)).
+  assert (H1 : omap (def_of_ddef E0) sd = Ok (map (mddef E0) sd)).
   { clear -Hsd. induction Hsd as [|x l Hx Hl IH]; [reflexivity|]. cbn [omap map].
-    rewrite (def_of_ddef_desc o E0 x Hx). cbn [obind]. rewrite IH. reflexivity. }
+    rewrite (def_of_ddef_m o E0 x Hx). cbn [obind]. rewrite IH. reflexivity. }
   assert (H2 : omap (def_of_tdef E0) st = Ok (map (fdef E0) st)).
   { clear -Hst. induction Hst as [|x l Hx Hl IH]; [reflexivity|]. cbn [omap map].
     rewrite (def_of_tdef_full o E0 x Hx). cbn [obind]. rewrite IH. reflexivity. }
@@ -669,25 +969,25 @@ Proof.
   set (E := env_of_schema intro sc). pose proof (env_le_intro intro sc) as Hext. fold E0 E in Hext.
   set (st := sort_by tdef_name (s_types sc)). set (sd := sort_by dd_name (s_ddefs sc)).
   assert (Hst : Forall (full_tdef o E0) st) by (apply sort_by_Forall; exact Ht).
-  assert (Hsd : Forall (dt_ddef o E0) sd) by (apply sort_by_Forall; exact Hd).
+  assert (Hsd : Forall (m_ddef o E0) sd) by (apply sort_by_Forall; exact Hd).
   unfold full_items. fold E0 sd st.
   unfold print_schema. rewrite Hi. rewrite app_nil_r. fold st sd E. cbn [obind].
-  assert (H1 : omap (print_directive_definition o E print_fuel) sd = Ok (map (dtext_d o E0) sd)).
-  { clear -Hsd Hext. induction Hsd as [|x l Hx Hl IH]; [reflexivity|]. cbn [omap map].
-    rewrite (print_ddef_desc o E E0 Hext x Hx). cbn [obind]. rewrite IH. reflexivity. }
+  assert (H1 : omap (print_directive_definition o E print_fuel) sd = Ok (map (mdtext o E0) sd)).
+  { clear -Hsd Hext Hws. induction Hsd as [|x l Hx Hl IH]; [reflexivity|]. cbn [omap map].
+    rewrite (print_ddef_m o E E0 Hext x Hx). cbn [obind]. rewrite IH. reflexivity. }
   assert (H2 : omap (print_type o E print_fuel) st = Ok (map (ftext o E0) st)).
   { clear -Hst Hext Hws. induction Hst as [|x l Hx Hl IH]; [reflexivity|]. cbn [omap map].
     rewrite (print_type_full o E E0 Hext Hws x Hx). cbn [obind]. rewrite IH. reflexivity. }
   rewrite H1, H2. cbn [obind app].
   rewrite (print_schema_definition_plain o sc Hr).
   set (Stexts := if schema_def_needed sc then [sdef_text o sc] else []).
-  assert (Hrest : Forall (fun x : str => x <> []) (map (dtext_d o E0) sd ++ map (ftext o E0) st)).
+  assert (Hrest : Forall (fun x : str => x <> []) (map (mdtext o E0) sd ++ map (ftext o E0) st)).
   { apply Forall_app; split; apply Forall_forall; intros x Hx; apply in_map_iff in Hx; destruct Hx as [y [<- _]].
-    - apply dtext_d_ne.
+    - unfold mdtext. intros H0. apply app_eq_nil in H0. destruct H0 as [_ H0]. discriminate.
     - apply ftext_ne. }
   assert (Hparts : filter nonempty ((if schema_def_needed sc then sdef_text o sc else [])
-                                    :: map (dtext_d o E0) sd ++ map (ftext o E0) st)
-                   = Stexts ++ map (dtext_d o E0) sd ++ map (ftext o E0) st).
+                                    :: map (mdtext o E0) sd ++ map (ftext o E0) st)
+                   = Stexts ++ map (mdtext o E0) sd ++ map (ftext o E0) st).
   { assert (Hk : forall l : list str, Forall (fun x => x <> []) l -> filter nonempty l = l).
     { induction 1 as [|x l Hx Hl IH]; [reflexivity|]. cbn [filter]. destruct x; [congruence|]. cbn [nonempty].
       rewrite IH. reflexivity. }
@@ -697,12 +997,12 @@ Proof.
   rewrite Hparts.
   assert (Hst_ne : st <> []) by (apply sort_by_nonempty; exact Hne).
   assert (Hfst : map fst ((if schema_def_needed sc then [(sdef_text o sc, sdef_of sc)] else [])
-                          ++ map (fun d => (dtext_d o E0 d, ddef_d E0 d)) sd
+                          ++ map (fun d => (mdtext o E0 d, mddef E0 d)) sd
                           ++ map (fun t => (ftext o E0 t, fdef E0 t)) st)
-                 = Stexts ++ map (dtext_d o E0) sd ++ map (ftext o E0) st).
+                 = Stexts ++ map (mdtext o E0) sd ++ map (ftext o E0) st).
   { rewrite !map_app, !map_map. cbn [fst]. unfold Stexts. destruct (schema_def_needed sc); reflexivity. }
   rewrite Hfst.
-  destruct (Stexts ++ map (dtext_d o E0) sd ++ map (ftext o E0) st) as [|p0 ps] eqn:Hp; [|reflexivity].
+  destruct (Stexts ++ map (mdtext o E0) sd ++ map (ftext o E0) st) as [|p0 ps] eqn:Hp; [|reflexivity].
   exfalso. apply app_eq_nil in Hp. destruct Hp as [_ Hp]. apply app_eq_nil in Hp. destruct Hp as [_ Hp].
   destruct st; [congruence|discriminate].
 Qed.
@@ -724,8 +1024,8 @@ Proof.
   - unfold full_items. fold E0. apply Forall_app; split; [|apply Forall_app; split].
     + destruct (schema_def_needed sc); [|constructor]. constructor; [|constructor]. apply sdef_item; assumption.
     + apply Forall_forall. intros x Hx. apply in_map_iff in Hx. destruct Hx as (d & <- & Hin).
-      apply sort_by_in in Hin. unfold valid_locations in Hl. rewrite Forall_forall in Hd, Hl.
-      apply dt_ddef_item; [exact Hws|apply Hd; exact Hin|apply Hl; exact Hin].
+      apply sort_by_in in Hin. rewrite Forall_forall in Hd.
+      apply m_ddef_item; [exact Hws|apply Hd; exact Hin].
     + apply Forall_forall. intros x Hx. apply in_map_iff in Hx. destruct Hx as (t & <- & Hin).
       apply sort_by_in in Hin. rewrite Forall_forall in Ht. apply full_tdef_item; [exact Hws|apply Ht; exact Hin].
 Qed.
